@@ -108,6 +108,7 @@ fn alphabet(n: usize, tier: Tier) -> Vec<Dev> {
     }
     d.extend(crate::devs::rich_generic_devs(true));
     d.extend(crate::devs::context_devs());
+    d.extend(crate::devs::rebound_prelude_devs());
     d.extend(crate::devs::rare_shape_devs(n, true));
     d.extend(crate::devs::syntax_devs(true, true, true, false));
     d
